@@ -218,7 +218,7 @@ func (x *c08Inst) clone() (*c08Inst, error) {
 	y := *x
 	y.h = c
 	y.msg = append([]byte{}, x.msg...)
-	y.shape = &strings.Builder{}
+	y.midOps, y.straddles = 0, 0
 	x.note('C')
 	return &y, nil
 }
@@ -241,32 +241,54 @@ func c08ReadSize(rt *rapid.T, x *c08Inst) int {
 	}
 }
 
-// c08Steps runs up to n drawn operations on x (and, through Clone, on copies).
-func c08Steps(rt *rapid.T, c *ev.Collector, x *c08Inst, n, depth int, pool []byte) error {
-	canRead := x.f.kind != "sha3"
-	canClone := x.f.kind == "shake" || x.f.kind == "cshake"
+// c08Steps runs n drawn operations on a pool of live copies: the original (pool[0]) and every
+// clone / clone of a clone stay alive and are driven in drawn interleavings, each one compared
+// with the sponge model of what it has absorbed and squeezed itself.
+func c08Steps(rt *rapid.T, c *ev.Collector, poolp *[]*c08Inst, n int, data []byte) error {
+	pool := *poolp
+	defer func() { *poolp = pool }()
+	f := pool[0].f
+	canRead := f.kind != "sha3"
+	canClone := f.kind == "shake" || f.kind == "cshake"
+	wrap := func(i int, err error) error {
+		if err == nil || i == 0 {
+			return err
+		}
+		return fmt.Errorf("on clone #%d: %w", i, err)
+	}
+	writeLen := func(x *c08Inst) int {
+		var ln int
+		switch k := rapid.IntRange(0, 9).Draw(rt, "wClass"); {
+		case k == 0:
+			ln = 0
+		case k <= 2:
+			ln = rapid.IntRange(1, 30).Draw(rt, "wLen")
+		case k <= 5:
+			ln = max(0, x.f.rate-len(x.msg)%x.f.rate+rapid.IntRange(-1, 1).Draw(rt, "wD"))
+		default:
+			ln = rapid.IntRange(0, 400).Draw(rt, "wLen")
+		}
+		if len(x.msg)+ln > 1000 {
+			ln = max(0, 1000-len(x.msg))
+		}
+		return ln
+	}
+	doWrite := func(x *c08Inst) error {
+		ln := writeLen(x)
+		off := rapid.IntRange(0, len(data)-ln).Draw(rt, "wOff")
+		return x.write(data[off : off+ln])
+	}
 	for i := 0; i < n; i++ {
+		xi := 0
+		if len(pool) > 1 {
+			xi = rapid.IntRange(0, len(pool)-1).Draw(rt, "who")
+		}
+		x := pool[xi]
 		op := rapid.IntRange(0, 15).Draw(rt, "op")
 		switch {
 		case op <= 5: // Write
-			k := rapid.IntRange(0, 9).Draw(rt, "wClass")
-			var ln int
-			switch {
-			case k == 0:
-				ln = 0
-			case k <= 2:
-				ln = rapid.IntRange(1, 30).Draw(rt, "wLen")
-			case k <= 5:
-				ln = max(0, x.f.rate-len(x.msg)%x.f.rate+rapid.IntRange(-1, 1).Draw(rt, "wD"))
-			default:
-				ln = rapid.IntRange(0, 400).Draw(rt, "wLen")
-			}
-			if len(x.msg)+ln > 1000 {
-				ln = max(0, 1000-len(x.msg))
-			}
-			off := rapid.IntRange(0, len(pool)-ln).Draw(rt, "wOff")
-			if err := x.write(pool[off : off+ln]); err != nil {
-				return err
+			if err := doWrite(x); err != nil {
+				return wrap(xi, err)
 			}
 		case op <= 8: // Sum
 			var prefix []byte
@@ -274,30 +296,93 @@ func c08Steps(rt *rapid.T, c *ev.Collector, x *c08Inst, n, depth int, pool []byt
 				prefix = gen.RandBytes(rt, "prefix", rapid.IntRange(1, 40).Draw(rt, "prefixLen"))
 			}
 			if err := x.sum(prefix); err != nil {
-				return err
+				return wrap(xi, err)
 			}
-			x.midOps++
+			pool[0].midOps++
 		case op <= 11 && canRead:
 			if err := x.read(c08ReadSize(rt, x)); err != nil {
-				return err
+				return wrap(xi, err)
 			}
-		case op <= 13 && canClone && depth < 2:
+		case op <= 13 && canClone && len(pool) < 5:
 			y, err := x.clone()
 			if err != nil {
-				return err
+				return wrap(xi, err)
 			}
-			x.midOps++
+			pool = append(pool, y)
+			ci := len(pool) - 1
+			pool[0].midOps++
 			c.Class("clone:" + map[bool]string{false: "absorbing", true: "squeezing"}[x.reading])
-			if err := c08Steps(rt, c, y, rapid.IntRange(1, 5).Draw(rt, "cloneSteps"), depth+1, pool); err != nil {
-				return fmt.Errorf("on a clone taken after %q: %w", x.shape.String(), err)
+			if xi > 0 {
+				c.Class("clone:of-a-clone")
 			}
-			x.straddles += y.straddles
+			if x.reading && x.squeezed%f.rate != 0 {
+				c.Class("clone:inside-a-rate-block")
+			}
+			// optionally a directed interleaving of the two copies right away
+			switch rapid.IntRange(0, 5).Draw(rt, "afterClone") {
+			case 0: // the source runs ahead across rate blocks (or absorbs more) before the clone does anything
+				var err error
+				if x.reading {
+					err = x.read(f.rate*rapid.IntRange(1, 3).Draw(rt, "aheadK") + rapid.IntRange(-1, 3).Draw(rt, "aheadD"))
+				} else {
+					err = doWrite(x)
+				}
+				if err != nil {
+					return wrap(xi, err)
+				}
+				if y.reading {
+					err = y.read(rapid.IntRange(1, f.rate+2).Draw(rt, "behindN"))
+				} else {
+					err = y.sum(nil)
+				}
+				if err != nil {
+					return wrap(ci, err)
+				}
+				c.Class("interleave:source-ahead-then-clone")
+			case 1: // the clone runs ahead, then the source continues
+				var err error
+				if y.reading {
+					err = y.read(f.rate*rapid.IntRange(1, 3).Draw(rt, "aheadK") + rapid.IntRange(-1, 3).Draw(rt, "aheadD"))
+				} else {
+					err = doWrite(y)
+				}
+				if err != nil {
+					return wrap(ci, err)
+				}
+				if x.reading {
+					err = x.read(rapid.IntRange(1, f.rate+2).Draw(rt, "behindN"))
+				} else {
+					err = x.sum(nil)
+				}
+				if err != nil {
+					return wrap(xi, err)
+				}
+				c.Class("interleave:clone-ahead-then-source")
+			case 2: // alternating small steps
+				for k, m := 0, rapid.IntRange(2, 6).Draw(rt, "altN"); k < m; k++ {
+					t, ti := x, xi
+					if k%2 == 1 {
+						t, ti = y, ci
+					}
+					var err error
+					if t.reading {
+						err = t.read(rapid.IntRange(1, 40).Draw(rt, "altSize"))
+					} else {
+						off := rapid.IntRange(0, len(data)-40).Draw(rt, "altOff")
+						err = t.write(data[off : off+min(rapid.IntRange(0, 40).Draw(rt, "altLen"), max(0, 1000-len(t.msg)))])
+					}
+					if err != nil {
+						return wrap(ti, err)
+					}
+				}
+				c.Class("interleave:alternating")
+			}
 		case op == 14 && !x.reading:
-			// Reset is only exercised before any Read (DESIGN.md C08 limits)
+			// Reset is only exercised before any Read of that copy (DESIGN.md C08 limits)
 			x.reset()
 		default:
-			if err := x.write(pool[:rapid.IntRange(0, 40).Draw(rt, "wLenDefault")]); err != nil {
-				return err
+			if err := x.write(data[:min(rapid.IntRange(0, 40).Draw(rt, "wLenDefault"), max(0, 1000-len(x.msg)))]); err != nil {
+				return wrap(xi, err)
 			}
 		}
 	}
@@ -332,13 +417,32 @@ func TestC08(t *testing.T) {
 			}
 			off += cl
 		}
-		if err := c08Steps(rt, c, x, rapid.IntRange(1, 14).Draw(rt, "steps"), 0, pool); err != nil {
+		live := []*c08Inst{x}
+		if err := c08Steps(rt, c, &live, rapid.IntRange(1, 16).Draw(rt, "steps"), pool); err != nil {
 			fail(err)
 		}
-		// closing check: the digest / the stream of everything absorbed
-		if !x.reading {
-			if err := x.sum(nil); err != nil {
-				fail(err)
+		// closing check on every live copy, in drawn order: the digest / the next stream bytes of what it absorbed
+		order := []int{0}
+		if len(live) > 1 {
+			idx := make([]int, len(live))
+			for i := range idx {
+				idx[i] = i
+			}
+			order = rapid.Permutation(idx).Draw(rt, "finalOrder")
+		}
+		for _, li := range order {
+			y := live[li]
+			var err error
+			if y.reading {
+				err = y.read(rapid.IntRange(1, f.rate+5).Draw(rt, "closingRead"))
+			} else {
+				err = y.sum(nil)
+			}
+			if err != nil {
+				fail(fmt.Errorf("closing check on copy #%d: %w", li, err))
+			}
+			if li > 0 {
+				x.straddles += y.straddles
 			}
 		}
 		if f.kind != "sha3" && rapid.Bool().Draw(rt, "finalRead") {
@@ -485,6 +589,77 @@ func TestC08(t *testing.T) {
 		}
 	}
 	c.Exhaustive("message length 0..2*rate+1 x {SHA3-224/256/384/512, LegacyKeccak-256/512, SHAKE128/256}: split write, mid Sum, final Sum, reads across the rate", total)
+
+	// directed Clone interleavings on the ShakeHash implementations: clone position x order in which the copies advance
+	type c08Step struct{ who, n int } // n == -1: clone pool[who]; n <= -2: write -n-2 bytes; else read n bytes
+	orders := []struct {
+		name  string
+		steps func(r int) []c08Step
+	}{
+		{"source-first", func(r int) []c08Step { return []c08Step{{0, -1}, {0, 2*r + 1}, {1, r}, {0, 5}, {1, 5}} }},
+		{"clone-first", func(r int) []c08Step { return []c08Step{{0, -1}, {1, 2*r + 1}, {0, r}, {1, 5}, {0, 5}} }},
+		{"alternating", func(r int) []c08Step {
+			return []c08Step{{0, -1}, {0, 3}, {1, 3}, {0, r - 1}, {1, r - 1}, {0, r + 1}, {1, r + 1}}
+		}},
+		{"far-ahead", func(r int) []c08Step {
+			return []c08Step{{0, -1}, {0, 5*r + 3}, {1, 1}, {1, r}, {0, 1}, {1, 6 * r}, {0, r}}
+		}},
+		{"clone-of-clone", func(r int) []c08Step {
+			return []c08Step{{0, -1}, {1, 2}, {1, -1}, {1, 2 * r}, {2, 3}, {0, r + 1}, {2, r}, {2, -1}, {2, 3 * r}, {3, r - 1}}
+		}},
+		{"absorbing-different-suffixes", func(r int) []c08Step {
+			return []c08Step{{0, -1}, {0, -2 - (r - 1)}, {1, -2 - 3}, {1, -1}, {2, -2 - r}, {0, r + 1}, {1, 7}, {2, 2 * r}, {0, 3}}
+		}},
+	}
+	nInter := 0
+	for _, f := range []c08Func{
+		{name: "SHAKE128", kind: "shake", bits: 128, rate: 168, size: 32, ds: 0x1f},
+		{name: "SHAKE256", kind: "shake", bits: 256, rate: 136, size: 64, ds: 0x1f},
+		{name: "cSHAKE128", kind: "cshake", bits: 128, rate: 168, size: 32, ds: 0x04, n: []byte("fn"), s: []byte("custom"), prefix: ref.BytePad(append(ref.EncodeString([]byte("fn")), ref.EncodeString([]byte("custom"))...), 168)},
+		{name: "cSHAKE256", kind: "cshake", bits: 256, rate: 136, size: 64, ds: 0x04, s: []byte("S"), prefix: ref.BytePad(append(ref.EncodeString(nil), ref.EncodeString([]byte("S"))...), 136)},
+	} {
+		for _, p0 := range []int{0, 1, f.rate / 2, f.rate - 1, f.rate, f.rate + 3} {
+			for _, o := range orders {
+				item++
+				if !ev.Mine(item) {
+					continue
+				}
+				absorbing := o.name == "absorbing-different-suffixes"
+				live := []*c08Inst{{f: f, h: f.fresh(), shape: &strings.Builder{}}}
+				err := live[0].write(seqBytes(20 + p0))
+				if err == nil && p0 > 0 && !absorbing {
+					err = live[0].read(p0)
+				}
+				for si, st := range o.steps(f.rate) {
+					if err != nil {
+						break
+					}
+					switch {
+					case st.n == -1:
+						var y *c08Inst
+						if y, err = live[st.who].clone(); err == nil {
+							live = append(live, y)
+						}
+					case st.n <= -2:
+						err = live[st.who].write(seqBytes(-st.n - 2 + st.who)[st.who:])
+					default:
+						err = live[st.who].read(st.n)
+					}
+					if err != nil {
+						err = fmt.Errorf("step %d (copy %d, arg %d): %w", si, st.who, st.n, err)
+					}
+				}
+				if err != nil {
+					what := fmt.Sprintf("%s clone at output position %d, interleaving %s: %v", f.name, p0, o.name, err)
+					c.Violation(what, "")
+					t.Fatalf("VF-VIOLATION: property=C08 %s", what)
+				}
+				c.Case(true, fmt.Sprintf("interleave|%s|%d|%s", f.name, p0, o.name), "enum:clone-interleaving:"+o.name)
+				nInter++
+			}
+		}
+	}
+	c.Exhaustive("Clone interleavings: {SHAKE128, SHAKE256, cSHAKE128, cSHAKE256} x clone position {0,1,rate/2,rate-1,rate,rate+3} x 6 advance orders (source first, clone first, alternating, far ahead, clone of clone, absorbing copies with different suffixes)", nInter)
 
 	switch n, err := py.run(); {
 	case err == nil:
